@@ -411,6 +411,10 @@ func main() {
 	run.Set("bounds", bounds)
 	run.Set("evaluations", total.evals)
 	run.Set("distinct_nontrivial", len(total.passed))
+	run.Set("import_history_checks", int(atomic.LoadInt64(&historyChecks)))
+	if importDisagree != "" {
+		run.Report("C08|import|ImportString-differs-from-its-only-matcher", importDisagree, map[string]any{"kind": "import-dispatch", "what": importDisagree})
+	}
 	run.Set("rule", "every (type, width/parameters, value) in the stated bounds is built by ImportBytes+CastType and by each canonical literal, exported with ExportString and re-imported with ImportString (same type name, width, bits, byte length), and pushed through ExportBinaryNBits/ExportVerilogBinary/ExportBinary/ExportUint64; distinct_nontrivial = distinct (type family, parameter class, value class) cells containing at least one value that passed every oracle")
 	cellCount := map[string]int{}
 	for f, m := range total.cells {
